@@ -1,5 +1,7 @@
 import OdcGeo.Model.C20
 import OdcGeo.Model.C20Glue
+import OdcGeo.Model.C20NonFinite
+import OdcGeo.Model.C20Seq
 namespace OdcGeo.C20.Drv
 open OdcGeo OdcGeo.IO OdcGeo.C20
 
@@ -26,6 +28,22 @@ def fmtTN (r : Rat × Int) : String := s!"{fmtRat r.1} {r.2}"
 
 def fmtBin (b : Bin1D) : String := s!"{fmtRat b.sz} {fmtRat b.origin} {b.direction}"
 
+def fmtSum (r : Sum Int XF) : String :=
+  match r with
+  | .inl k => s!"i:{k}"
+  | .inr y => s!"f:{fmtXF y}"
+
+def fmtNRes {α} (f : α → String) : NF.NRes α → String
+  | .ok a => f a
+  | .error e => e.toStr
+
+def fmtAffX (A : NF.AffX) : String := ";".intercalate ([A.a, A.b, A.c, A.d, A.e, A.f].map fmtXF)
+
+def parseAffX? (s : String) : Option NF.AffX :=
+  match (s.splitOn ";").mapM parseXF? with
+  | some [a, b, c, d, e, f] => some ⟨a, b, c, d, e, f⟩
+  | _ => none
+
 /-- `s:<q>` scalar, `a:[..]` 1-d array -/
 def parseArg? (s : String) : Option Poly2d.Arg :=
   match s.splitOn ":" with
@@ -44,6 +62,32 @@ def fmtRWS (r : RWS) : String := s!"{fmtAff r.R} {fmtAff r.W} {fmtAff r.S}"
 
 def run (args : List String) : Option String :=
   match args with
+  | ["sscalex", s, tol] => do
+    let s ← parseXF? s; let tol ← parseXF? tol
+    pure (fmtNRes fmtSum (NF.snapScaleX s tol))
+  | ["mintx", x, tol] => do
+    let x ← parseXF? x; let tol ← parseXF? tol
+    pure (fmtSum (NF.maybeIntT x tol))
+  | ["gridx", x0, x1, res, off, tol] => do
+    let x0 ← parseXF? x0; let x1 ← parseXF? x1; let res ← parseXF? res
+    let off ← parseOpt? parseXF? off; let tol ← parseXF? tol
+    pure (fmtNRes (fun r => s!"{fmtXF r.1} {r.2}") (NF.snapGridX x0 x1 res off tol))
+  | ["stx", A, tol] => do
+    let A ← parseAffX? A; let tol ← parseXF? tol
+    pure (fmtBool (NF.isAffineStX A tol))
+  | ["saffx", A, ttol, stol, tol] => do
+    let A ← parseAffX? A; let ttol ← parseXF? ttol; let stol ← parseXF? stol; let tol ← parseXF? tol
+    pure (fmtNRes fmtAffX (NF.snapAffineX A ttol stol tol))
+  | ["edgeidx", ny, nx, closed] => do
+    let ny ← parseNat? ny; let nx ← parseNat? nx; let closed ← parseBool? closed
+    pure (fmtList (fun (q : Nat × Nat) => s!"{q.1};{q.2}") (edgeIndex ny nx closed))
+  | ["qr2", n, shape, offset] => do
+    -- binary64 products (C14's `fl64`), float32 `arange` exact below 2^24
+    let n ← parseNat? n; let offset ← parseInt? offset
+    let shape ← parseOpt? (fun s => match (s.splitOn ";").mapM parseNat? with
+      | some [ny, nx] => some (ny, nx)
+      | _ => none) shape
+    pure (fmtList fmtPt (quasiRandomR2 C14.fl64 n shape offset))
   | ["polymk", shape, cc, A, x, y] => do
     let shape ← parseList? parseNat? shape; let cc ← parseList? parsePt? cc; let A ← parseAff? A
     let x ← parseRat? x; let y ← parseRat? y
